@@ -7,7 +7,7 @@ for d in sorted(glob.glob('seeded/%s/m*'%pat)):
     if not os.path.exists(mp) or not os.path.exists(d+'/result.txt'): continue
     m=json.load(open(mp))
     res=open(d+'/result.txt').read()
-    caught='VIOLATION' in res and 'DOES NOT APPLY' not in res
+    caught=('VIOLATION' in res or 'violation(s)' in res) and 'DOES NOT APPLY' not in res
     sigs=re.findall(r'violation: ([^ ]+) ',res)
     m['check_result']='caught' if caught else 'missed'
     m['detected_by']=('oracle signatures: '+', '.join(sorted(set(sigs)))[:400]) if sigs else ('correspondence / proof tie broken (no-failing-input-found)' if caught else 'not detected')
